@@ -1,19 +1,30 @@
 /-
 C02 — Write-then-read round trip preserves entries in every format.
 
-What is proved here (models of `LA.Model.Codec` / `LA.Model.Pax`, tied to the C by the `codec` engine):
-  * `decode_encode_ustar` — an entry ustar can represent is accepted with ARCHIVE_OK and the
-    512 bytes decode (checksum verified) to `norm .ustar e`;
-  * `stream_roundtrip_ustar` — a whole archive: headers, bodies written in *any* chunking
-    (truncated to the declared size, zero filled, padded to 512), two zero blocks, any amount
-    of block padding, reads back as the accepted entries in order;
-  * `pax_len_fixed_point` — the self-referential decimal length prefix of a pax record.
-For the formats without a byte model only the spec-level `representable`/`norm` exist and the
-engine checks the real writers/readers against them (a differential, not a proof).
+What is proved here (models of `LA.Model.Codec` / `LA.Model.Ar` / `LA.Model.Pax`, each tied to the C byte for
+byte by the `codec` engine):
+  * `decode_encode_ustar`, `stream_roundtrip_ustar` — ustar header and whole archive (any chunking, padding);
+  * `readback_fixed_point_ustar` — decode a header, write the decoded record again, decode: the same record;
+  * `stream_roundtrip_newc`, `stream_roundtrip_odc` (+ `_representable` forms, `representable_{newc,odc}_accepted`)
+    — whole cpio archives: headers, name / body padding, symlink bodies, synthesised inode numbers, trailer;
+  * `decode_encode_ar`, `stream_roundtrip_ar` — ar members (SVR4 `name/`, BSD short and `#1/<len>` long names,
+    pad byte) and whole archives with the global header;
+  * `pax_len_fixed_point`, `paxRecords_roundtrip`, `pax_number_roundtrip`, `decode_encode_pax_partial` — the
+    record layer of pax extended headers, writer against the reader's parsing loop.
+Still specification level only (differential against `representable` / `norm`, no byte model): the pax writer's
+choice of attributes, its time-stamp text form and the ustar header it emits after the extended header; gnutar,
+v7tar, binary cpio, zip, 7zip, xar, iso9660, mtree, warc; the SVR4 ar filename table (`//`) and the ar symbol
+tables; write filters.
 -/
 import LA.Lemmas.UstarSpec
 import LA.Lemmas.Stream
 import LA.Lemmas.Pax
+import LA.Lemmas.CpioStream
+import LA.Lemmas.CpioStreamOdc
+import LA.Lemmas.CpioAccept
+import LA.Lemmas.ArStream
+import LA.Lemmas.PaxParse
+import LA.Lemmas.UstarFixed
 import LA.Props.C10
 namespace LA.C02
 open LA.Codec LA.NumFmt
@@ -143,5 +154,212 @@ theorem norm_path_idem (f : WFmt) (ft : FType) (p : List Nat)
   cases f <;> simp only [normPath] <;> first | exact dirSlash_idem ft p | rfl | contradiction
 
 example : normPath .ustar .dir [100] = [100, 47] ∧ normPath .ustar .dir [100, 47] = [100, 47] := by decide
+
+/-! ### whole cpio archives -/
+
+open LA.Gen.CodecConsts in
+/-- **Round trip of a cpio newc archive**: any list of entries (each a C-string entry the writer
+accepts with plain ARCHIVE_OK or refuses; bodies handed over in any chunking), written with
+`archive_write_set_format_cpio_newc` under any output blocking: the 110-byte headers, names padded to
+4 bytes, symlink targets and bodies with their padding, and the `TRAILER!!!` entry, are read by the
+cpio reader as exactly the accepted entries in order — every field newc carries equal to `norm`,
+bodies byte-identical — and the archive ends cleanly at the trailer (block padding ignored).
+Refused entries leave no trace. -/
+theorem stream_roundtrip_newc (es : List (Entry × List (List Nat))) (hes : ∀ ec ∈ es, NewcEntryOK ec.1)
+    (bpb : Nat) (bilb : Int) :
+    ∃ rbs, cpioRead false true (writeArchive .newc es bpb bilb) ARCHIVE_FORMAT_CPIO_SVR4_NOCRC [] []
+        = ⟨ARCHIVE_FORMAT_CPIO_SVR4_NOCRC, rbs, .eof, 0⟩ ∧
+      AllPairs (CpioReadsBack .newc) (es.filter fun ec => newcAccepted ec.1) rbs := by
+  unfold writeArchive
+  simp only []
+  rw [List.append_assoc]
+  obtain ⟨rbs, h, hall⟩ := cpioRead_newc_entries es hes {} (writeEntries .newc {} es).2 _
+    ARCHIVE_FORMAT_CPIO_SVR4_NOCRC [] []
+  exact ⟨rbs, by rw [h]; simp, hall⟩
+
+open LA.Gen.CodecConsts in
+/-- **Round trip of a cpio odc archive** (76-byte octal headers, no padding, inode numbers
+re-synthesised by the writer, at most 262143 entries — beyond that the format has no inode numbers
+left and the writer gives up). -/
+theorem stream_roundtrip_odc (es : List (Entry × List (List Nat))) (hes : ∀ ec ∈ es, OdcEntryOK ec.1)
+    (hn : es.length ≤ 262143) (bpb : Nat) (bilb : Int) :
+    ∃ rbs, cpioRead false false (writeArchive .odc es bpb bilb) ARCHIVE_FORMAT_CPIO_POSIX [] []
+        = ⟨ARCHIVE_FORMAT_CPIO_POSIX, rbs, .eof, 0⟩ ∧
+      AllPairs (CpioReadsBack .odc) (es.filter fun ec => odcAccepted ec.1) rbs := by
+  unfold writeArchive
+  simp only []
+  rw [List.append_assoc]
+  obtain ⟨rbs, h, hall⟩ := cpioRead_odc_entries es hes {} 0 inoInv_empty (by omega) (writeEntries .odc {} es).2 _
+    ARCHIVE_FORMAT_CPIO_POSIX [] []
+  exact ⟨rbs, by rw [h]; simp, hall⟩
+
+open LA.Gen.CodecConsts in
+/-- The same for **representable** entries, in the words of the property: every list of entries the
+format description `representable .newc` admits (C strings, link targets of at most 1 MiB, not named
+`TRAILER!!!`) is accepted entry by entry and reads back as all of them, in order, equal to `norm`. -/
+theorem stream_roundtrip_newc_representable (es : List (Entry × List (List Nat)))
+    (hes : ∀ ec ∈ es, wfEntry ec.1 ∧ representable .newc ec.1 = true ∧ ec.1.sym.length ≤ 1048576 ∧
+      ec.1.path ≠ some trailerName ∧ (∀ p, ec.1.path = some p → p.length < 2147483647))
+    (bpb : Nat) (bilb : Int) :
+    ∃ rbs, cpioRead false true (writeArchive .newc es bpb bilb) ARCHIVE_FORMAT_CPIO_SVR4_NOCRC [] []
+        = ⟨ARCHIVE_FORMAT_CPIO_SVR4_NOCRC, rbs, .eof, 0⟩ ∧ AllPairs (CpioReadsBack .newc) es rbs := by
+  have hacc : ∀ ec ∈ es, newcAccepted ec.1 = true := fun ec h =>
+    representable_newc_accepted ec.1 (hes ec h).2.1 (hes ec h).2.2.1
+  obtain ⟨rbs, h, hall⟩ := stream_roundtrip_newc es (fun ec h =>
+    ⟨(hes ec h).1, representable_symiff _ _ (hes ec h).2.1, (hes ec h).2.2.1, (hes ec h).2.2.2.1, (hes ec h).2.2.2.2,
+     Or.inl (by have := hacc ec h; unfold newcAccepted at this; simpa using this)⟩) bpb bilb
+  refine ⟨rbs, h, ?_⟩
+  have : es.filter (fun ec => newcAccepted ec.1) = es := List.filter_eq_self.2 hacc
+  rw [this] at hall; exact hall
+
+open LA.Gen.CodecConsts in
+theorem stream_roundtrip_odc_representable (es : List (Entry × List (List Nat)))
+    (hes : ∀ ec ∈ es, wfEntry ec.1 ∧ representable .odc ec.1 = true ∧ ec.1.sym.length ≤ 1048576 ∧
+      ec.1.path ≠ some trailerName ∧
+      (0 ≤ ec.1.rdevmajor ∧ ec.1.rdevmajor < 4294967296) ∧ (0 ≤ ec.1.rdevminor ∧ ec.1.rdevminor < 4294967296))
+    (hn : es.length ≤ 262143) (bpb : Nat) (bilb : Int) :
+    ∃ rbs, cpioRead false false (writeArchive .odc es bpb bilb) ARCHIVE_FORMAT_CPIO_POSIX [] []
+        = ⟨ARCHIVE_FORMAT_CPIO_POSIX, rbs, .eof, 0⟩ ∧ AllPairs (CpioReadsBack .odc) es rbs := by
+  have hacc : ∀ ec ∈ es, odcAccepted ec.1 = true := fun ec h =>
+    representable_odc_accepted ec.1 (hes ec h).2.1 (hes ec h).2.2.1
+  obtain ⟨rbs, h, hall⟩ := stream_roundtrip_odc es (fun ec h =>
+    ⟨(hes ec h).1, representable_symiff _ _ (hes ec h).2.1, (hes ec h).2.2.1, (hes ec h).2.2.2.1, (hes ec h).2.2.2.2.1,
+     (hes ec h).2.2.2.2.2,
+     Or.inl (by have := hacc ec h; unfold odcAccepted at this; simpa using this)⟩) hn bpb bilb
+  refine ⟨rbs, h, ?_⟩
+  have : es.filter (fun ec => odcAccepted ec.1) = es := List.filter_eq_self.2 hacc
+  rw [this] at hall; exact hall
+
+/-- e.g. a regular file with a 5-byte body in two chunks, a symbolic link, a refused entry (no
+size), a directory: three of the four are accepted. -/
+example : ([({ path := some [97], size := some 5, nlink := 1 }, [[1, 2], [3, 4, 5]]),
+            ({ path := some [108], ftype := .lnk, sym := [116], nlink := 1 }, []),
+            ({ path := some [120], size := none }, []),
+            ({ path := some [100], ftype := .dir, nlink := 2 }, [])]
+    : List (Entry × List (List Nat))).map (fun ec => newcAccepted ec.1) = [true, true, false, true] := by decide
+
+/-! ### ar archives (BSD and SVR4/GNU member headers) -/
+
+/-- **One ar member, written and read back** (`decode_encode_ar`): for a member the writer accepts
+(`ArEntryOK`: C-string pathname, regular file, no link target, at least the declared number of body
+bytes, member name not `__.SYMDEF`), the bytes `archive_write_ar_header` / `_data` / `_finish_entry`
+produce — the 60-byte header with its left-justified decimal / octal fields, the SVR4 `name/` or BSD
+`name ` field or the BSD `#1/<length>` form with the name in front of the body, the body, the "\n"
+pad after an odd total — are parsed by the ar reader into an entry that agrees with `norm` on every
+field ar carries (member name = last pathname component) with a byte-identical body, and the reader
+stands exactly at the next member. -/
+theorem decode_encode_ar (v : ArVariant) (st : ArState) (hg : st.wroteGlobal = true) (e : Entry) (chunks : List (List Nat))
+    (hE : ArEntryOK v (e, chunks)) (hok : (arWriteHeader v st e).1 = .ok)
+    (more : List Nat) (fmt : Nat) (acc : List RB) :
+    ∃ rb fmt', arRead false ((arWriteEntry v st e chunks).2.2.2.1 ++ more) fmt acc = arRead false more fmt' (rb :: acc) ∧
+      ArReadsBack v (e, chunks) rb := by
+  obtain ⟨rb, fmt', _, h, hrb⟩ := arMember_roundtrip v st hg e chunks hE hok more fmt acc
+  exact ⟨rb, fmt', h, hrb⟩
+
+/-- **Round trip of an ar archive** (either variant): the global header — written with the first named
+member, or at close for an archive without one — then every accepted member in order, each equal
+to `norm` with its body; refused entries (ARCHIVE_WARN: no name, trailing '/', not a regular file, a
+number that does not fit its decimal field, an SVR4 name longer than 15 bytes without a name table)
+leave no trace; fewer than 60 trailing bytes end the archive cleanly. -/
+theorem stream_roundtrip_ar (v : ArVariant) (es : List (Entry × List (List Nat))) (hes : ∀ ec ∈ es, ArEntryOK v ec) :
+    ∃ rbs fmt, arReadArchive false (arWriteArchive v es) = ⟨fmt, rbs, .eof, 0⟩ ∧
+      AllPairs (ArReadsBack v) (es.filter fun ec => arAccepted v ec.1) rbs := by
+  unfold arWriteArchive arReadArchive
+  simp only []
+  rw [arWriteEntries_magic v es {} rfl]
+  have hd : (arMagic ++ (arWriteEntries v { ({} : ArState) with wroteGlobal := true } es).1).drop 8
+      = (arWriteEntries v { ({} : ArState) with wroteGlobal := true } es).1 := by
+    have : arMagic.length = 8 := rfl
+    rw [← this, List.drop_left]
+  rw [hd]
+  obtain ⟨rbs, fmt', h, hall⟩ := arRead_entries v es hes { ({} : ArState) with wroteGlobal := true } rfl [] (by decide)
+    LA.Gen.CodecConsts.ARCHIVE_FORMAT_AR []
+  rw [List.append_nil] at h
+  exact ⟨rbs, fmt', by rw [h]; simp, hall⟩
+
+/-- e.g. BSD: a short name, a name with a blank (stored as `#1/3`), a directory (refused). -/
+example : ([({ path := some [97, 47, 98], size := some 2 }, [[1, 2]]),
+            ({ path := some [120, 32, 121], size := some 1 }, [[7]]),
+            ({ path := some [100], ftype := .dir }, [])]
+    : List (Entry × List (List Nat))).map (fun ec => arAccepted .bsd ec.1) = [true, true, false] := by decide
+
+/-! ### pax extended headers: the record layer -/
+
+/-- **pax records round trip** (`paxRecords_roundtrip`): the body the writer builds with
+`add_pax_attr_binary` for any list of attributes — values of any bytes, newlines, '=' and NULs included;
+keys non-empty, without '=', at most 500 bytes (the reader is only sure to see the first 512 bytes of a record; beyond that it depends on
+how much the source has buffered, `avail`), records of at most 99999999 bytes — is split by the reader's loop (`header_pax_extension`: decimal
+length up to the blank, key up to the first '=', `length - consumed - 1` value bytes, newline) into exactly
+that list.  The parser model is compared with the real reader by the `paxbody` op of the codec engine. -/
+theorem paxRecords_roundtrip (kvs : List (List Nat × List Nat)) (h : ∀ kv ∈ kvs, LA.Pax.RecordOK kv) (avail : Nat) :
+    LA.Pax.parseRecords kvs.length (kvs.flatMap fun kv => LA.Pax.record kv.1 kv.2) avail = some kvs :=
+  LA.Pax.parseRecords_records kvs h avail
+
+/-- Decimal attribute values (`uid`, `gid`, `size`, the seconds of `mtime` …): what `format_int` writes,
+`tar_atol10` (`pax_attribute_read_number`) reads back. -/
+theorem pax_number_roundtrip (n : Nat) (hn : n < 9223372036854775800) :
+    tarAtol10 (LA.Pax.decDigits n) = (n : Int) := LA.Pax.tarAtol10_decDigits n hn
+
+/-- **The attributes the pax writer emits when a field does not fit ustar** (`decode_encode_pax_partial`):
+for pathname, link target, user and group name (any bytes) and uid, gid, size (decimal), the records
+`path=…`, `linkpath=…`, `uid=…`, `gid=…`, `size=…`, `uname=…`, `gname=…` are split back into exactly these
+key/value pairs by the reader and the three numbers parse back to their values.  (What is not covered
+by a theorem: the decision which attributes are needed, the `mtime`/`atime`/`ctime` "seconds.fraction"
+text form, string conversion to UTF-8, and the ustar header that follows — spec level, checked by the
+engine's round-trip predicate.) -/
+theorem decode_encode_pax_partial (path linkpath uname gname : List Nat) (uid gid size : Nat)
+    (hu : uid < 9223372036854775800) (hg : gid < 9223372036854775800) (hs : size < 9223372036854775800)
+    (hlen : ∀ kv ∈ [([112, 97, 116, 104], path), ([108, 105, 110, 107, 112, 97, 116, 104], linkpath),
+        ([117, 105, 100], LA.Pax.decDigits uid), ([103, 105, 100], LA.Pax.decDigits gid),
+        ([115, 105, 122, 101], LA.Pax.decDigits size), ([117, 110, 97, 109, 101], uname), ([103, 110, 97, 109, 101], gname)],
+      LA.Pax.recordLen kv.1 kv.2 ≤ 99999999) :
+    let attrs := [([112, 97, 116, 104], path), ([108, 105, 110, 107, 112, 97, 116, 104], linkpath),
+        ([117, 105, 100], LA.Pax.decDigits uid), ([103, 105, 100], LA.Pax.decDigits gid),
+        ([115, 105, 122, 101], LA.Pax.decDigits size), ([117, 110, 97, 109, 101], uname), ([103, 110, 97, 109, 101], gname)]
+    LA.Pax.parseRecords attrs.length (attrs.flatMap fun kv => LA.Pax.record kv.1 kv.2) = some attrs ∧
+    tarAtol10 (LA.Pax.decDigits uid) = (uid : Int) ∧ tarAtol10 (LA.Pax.decDigits gid) = (gid : Int) ∧
+    tarAtol10 (LA.Pax.decDigits size) = (size : Int) := by
+  intro attrs
+  refine ⟨paxRecords_roundtrip attrs ?_ 0, pax_number_roundtrip uid hu, pax_number_roundtrip gid hg, pax_number_roundtrip size hs⟩
+  intro kv hkv
+  have hl := hlen kv hkv
+  simp only [attrs, List.mem_cons, List.mem_nil_iff, or_false] at hkv
+  rcases hkv with rfl | rfl | rfl | rfl | rfl | rfl | rfl <;>
+    exact ⟨by simp, by intro c hc; simp at hc; omega, by simp, hl⟩
+
+/-! ### the read-back form is a fixed point (ustar) -/
+
+/-- **`readback_fixed_point_ustar`**: take any entry the ustar writer accepts (outside the two recorded
+defects, `UstarEntryOK`), decode its 512-byte header with the reader, hand the decoded record back to
+the writer unchanged (`RB.toEntry`: what a client does when it copies an archive): the writer accepts
+it, and the new header decodes to *exactly the same record* — every field, the body length included.
+(The bytes of the two headers may differ, e.g. a hard link to a device loses its device numbers at
+the first read; the decoded records do not.) -/
+theorem readback_fixed_point_ustar (st : WState) (e : Entry) (b : List Nat) (st' : WState)
+    (hok : ustarWriteHeader st e = (.ok, b, st')) (hOK : UstarEntryOK e) :
+    ∃ rb rem, ustarDecode b false = some (rb, rem) ∧
+      ∃ b2 st2, ustarWriteHeader st' rb.toEntry = (.ok, b2, st2) ∧ ustarDecode b2 false = some (rb, rem) := by
+  obtain ⟨p0, hp, hnf, hb, _⟩ := ustarWriteHeader_ok st e b st' hok
+  obtain ⟨hwf, hlinks, hnotrail, hnodbl⟩ := hOK
+  obtain ⟨_, _, _, _, _, htype⟩ := ustarFailed_false e _ _ hnf
+  obtain ⟨t, ht⟩ := Option.isSome_iff_exists.1 htype
+  obtain ⟨⟨rb, rem⟩, hs⟩ := ustarSpecRB_isSome e (dirSlash e.ftype p0) t ht
+  have hdec := ustarDecode_ustarHdr e (dirSlash e.ftype p0) (ustarSize e) t
+    (wfStr_dirSlash e.ftype p0 (hwf.1 p0 hp)) (wfStr_tarLink e hwf) hwf.2.1 hwf.2.2.1 hnf ht
+    (fun kk hk => hnodbl p0 kk hp hk)
+  obtain ⟨h1, h2, h3, h4, h5⟩ := readback_fixed_point e p0 hp ⟨hwf, hlinks, hnotrail, hnodbl⟩ hnf t ht rb rem hs
+  refine ⟨rb, rem, by rw [hb, hdec, hs], ustarHdr rb.toEntry (dirSlash e.ftype p0) (ustarSize e),
+    { st' with remaining := (ustarSize e).toNat, padding := pad512 (ustarSize e).toNat }, ?_, h5⟩
+  unfold ustarWriteHeader
+  rw [h1]
+  simp only [h2]
+  have hsz : (if rb.toEntry.hard ≠ [] ∨ rb.toEntry.sym ≠ [] ∨ rb.toEntry.ftype ≠ .reg then (0 : Int) else rb.toEntry.sizeV)
+      = ustarSize e := by rw [← h3]; rfl
+  rw [hsz]
+  have hf : ¬ (ustarFormatHeader rb.toEntry (dirSlash e.ftype p0) (ustarSize e) none true).1 = true := by
+    have : (ustarFormatHeader rb.toEntry (dirSlash e.ftype p0) (ustarSize e) none true).1 = false := h4
+    rw [this]; simp
+  rw [if_neg hf]
+  rfl
 
 end LA.C02
